@@ -2,6 +2,7 @@ package checks
 
 import (
 	"fmt"
+	"sort"
 	"strconv"
 	"strings"
 
@@ -55,6 +56,8 @@ type fsess struct {
 	victims        []string // keys of the directed hazard prefix still to be deleted (inline writers prefer them)
 
 	inlineVictimDeletes int
+
+	wipeDrawn, wipeAllowed bool
 }
 
 type fevent struct {
@@ -603,12 +606,49 @@ func (s *fsess) runOps(n int, weights []int) error {
 			err = s.get()
 		case 6:
 			err = s.killAndRecover()
+		case 7:
+			err = s.wipe()
 		}
 		if err != nil {
 			return err
 		}
 	}
 	return nil
+}
+
+// wipe deletes every live key and compacts without inline writers: with suitable thresholds the
+// compaction removes every segment, the current one included, and the directory is left with
+// index files only. A fifth of the sessions allow it (it destroys whatever shape the history had
+// built); in the others the operation is a point read.
+func (s *fsess) wipe() error {
+	if !s.wipeDrawn {
+		s.wipeDrawn, s.wipeAllowed = true, core.Pct(s.ch, "wipe_allowed", 20)
+	}
+	if !s.wipeAllowed {
+		return s.get()
+	}
+	var live []string
+	for k := range s.model {
+		live = append(live, k)
+	}
+	sort.Strings(live)
+	for _, k := range live {
+		if err := s.del(k); err != nil {
+			return err
+		}
+	}
+	saved := s.inlineMax
+	s.inlineMax = 0
+	err := s.compact()
+	s.inlineMax = saved
+	if err != nil {
+		return err
+	}
+	s.st.Count("wipes", 1)
+	if s.numSegments() == 0 {
+		s.st.Count("wipes_after_which_no_segment_file_is_left", 1)
+	}
+	return s.readback("after deleting everything and Compact")
 }
 
 // logWalker tracks, while walking the log, which model states are admissible at a crash point.
